@@ -15,6 +15,7 @@ import (
 	"flag"
 	"fmt"
 	"os"
+	"path/filepath"
 	"time"
 
 	"verif.local/harness/simkit"
@@ -73,6 +74,7 @@ func main() {
 		fmt.Fprintln(os.Stderr, "usage: worker batch|replay|digest ...")
 		os.Exit(2)
 	}
+	loadSites()
 	switch os.Args[1] {
 	case "batch":
 		batch(os.Args[2:])
@@ -322,5 +324,40 @@ func replay(args []string) {
 	} else {
 		os.Stdout.Write(jb)
 		fmt.Println()
+	}
+}
+
+// loadSites reads the instrumenter's site table (report.json next to the
+// worker binary) so that messages can name file:line instead of a site id.
+func loadSites() {
+	exe, err := os.Executable()
+	if err != nil {
+		return
+	}
+	b, err := os.ReadFile(filepath.Join(filepath.Dir(exe), "report.json"))
+	if err != nil {
+		return
+	}
+	var rep struct {
+		Sites []struct {
+			ID   int    `json:"id"`
+			File string `json:"file"`
+			Line int    `json:"line"`
+		} `json:"sites"`
+	}
+	if json.Unmarshal(b, &rep) != nil {
+		return
+	}
+	names := make([]string, len(rep.Sites)+1)
+	for _, s := range rep.Sites {
+		if s.ID < len(names) {
+			names[s.ID] = fmt.Sprintf("%s:%d", s.File, s.Line)
+		}
+	}
+	simhook.SiteNames = func(id uint32) string {
+		if int(id) < len(names) && names[id] != "" {
+			return names[id]
+		}
+		return fmt.Sprintf("site #%d", id)
 	}
 }
